@@ -134,9 +134,17 @@ var _ crypto.Base = (*Cache)(nil)
 
 // writeSignatureKey writes the claimed signers followed by the signature bytes to the key.
 // The signature bytes alone do not identify the signers: an aggregate's bytes omit them.
+// The number of claimed signers is written first: without it the boundary between signer ids and signature
+// bytes is ambiguous, and a verified single signature could be re-cut into "several signers" with the same key
+// (further ids carved out of the first bytes of the signature).
 func writeSignatureKey(key *strings.Builder, signature hotstuff.QuorumSignature) {
+	var ids []byte
+	count := uint32(0)
 	signature.Participants().ForEach(func(id hotstuff.ID) {
-		_, _ = key.Write(id.ToBytes())
+		ids = append(ids, id.ToBytes()...)
+		count++
 	})
+	_, _ = key.Write(hotstuff.ID(count).ToBytes())
+	_, _ = key.Write(ids)
 	_, _ = key.Write(signature.ToBytes())
 }
